@@ -198,12 +198,16 @@ CLAIMED = {
                 "the directory under that name, reached through real directories only -- never through a link -- (C13_spec_removes_only_beneath), "
                 "a reported success means the named entry is gone (C13_spec_success_means_gone), and -- names being unique within a directory -- "
                 "everything beneath it is gone too: the entries afterwards are EXACTLY the entries before minus the named one and what lies "
-                "beneath it (C13_spec_removes_everything_beneath, C13_spec_exact). "
+                "beneath it (C13_spec_removes_everything_beneath, C13_spec_exact). TERMINATION: when the sub-directories below the named "
+                "entry nest at most k deep, fuel k + (number of entries) + 6 is enough for rm_all to return (C13_spec_terminates: each pass "
+                "over a directory that goes through leaves it empty, so two rounds always suffice), and the whole statement for the kernel "
+                "backend from the tree and the path alone: RootRef::remove_all runs to completion, removes only, and on success the entries "
+                "are exactly those before minus the named one and what lies beneath it (C13_remove_all_post_kernel_backend). "
                 "Runtime: whole-sandbox snapshots on deep/wide subtrees with links to siblings/parents/outside x path spellings (difference must "
                 "be exactly the named entry and what is below it), 2-4 racing callers per path, and links swapped in at every boundary of a running remove_all.",
-        "note": COMMON_NOTE + "Partial: rm_all takes the fuel of the program (recursion depth, scan rounds, entries per directory); that "
-                "enough fuel exists for every finite tree is not proved (the library itself has no such bound: its loops end because the "
-                "directory empties): the exact statement is about the runs that report success; getdents returns the whole listing at once in the model (the kernel's batching is covered by the "
+        "note": COMMON_NOTE + "Partial: the end-to-end theorem is proved for the kernel backend (for the emulated backend the parent "
+                "lookup is tied by C04/T3, and C13_root_remove_all_exact applies to either); the fuel is the model's stand-in for 'the loops "
+                "end because the directory empties' -- with a static tree; under a concurrent refiller the library has no bound and none is claimed; getdents returns the whole listing at once in the model (the kernel's batching is covered by the "
                 "all-answers theorem C13_stays_beneath); convergence of concurrent callers is decided by the race / schedule runs. The dynamic "
                 "kernel model is tied by T2d (every answer of recorded remove_all executions incl. listings and F_GETFL, and the final tree).",
         "technique": "Coq proof (refusals, discipline, balance: all responses; refinement of remove_all on a dynamic kernel model to a pure function of the tree with its frame properties) + snapshot differential + racing callers + attacker schedules + trace replay incl. T2d",
@@ -243,7 +247,9 @@ CLAIMED = {
                 "ancestor the kernel's walk resolves (C12_partial_lookup_kernel_backend); end to end for the kernel backend: mkdir_all = partial "
                 "lookup, re-open (C09), mk_spec (C12_mkdir_all_kernel_backend), and the returned handle is a directory that IS the kernel's in-root "
                 "resolution of the path in the resulting tree (walk composition, walks survive the creation of directories: "
-                "C12_handle_is_resolution_in_resulting_tree, C12_mkdir_all_post_kernel_backend). Runtime: whole-sandbox snapshots -- on success the handle equals the kernel's raw in-root resolution "
+                "C12_handle_is_resolution_in_resulting_tree, C12_mkdir_all_post_kernel_backend); COMPLETENESS: when every remaining component "
+                "that exists is a directory and every name fits NAME_MAX, mk_spec succeeds and so does mkdir_all on the kernel backend "
+                "(C12_spec_complete, C12_mkdir_all_succeeds_kernel_backend). Runtime: whole-sandbox snapshots -- on success the handle equals the kernel's raw in-root resolution "
                 "of the path in the resulting tree, the new entries form exactly one chain of directories with mode&~umask (|setgid), nothing "
                 "else changed; on failure only one chain of directories was added; racing callers on equal/overlapping paths all succeed "
                 "with handles to the directories now at their paths.",
